@@ -91,7 +91,7 @@ func (e *verifExecEnv) execute(tasks []any) {
 func verifNewExecEnv(kind int) *verifExecEnv {
 	e := &verifExecEnv{kind: kind, ordered: true, bounded: true, known: true, maxTasks: 2, maxBytes: 10}
 	newTicker := func(d time.Duration) timex.Ticker {
-		e.tk = &verifTicker{c: make(chan time.Time)}
+		e.tk = &verifTicker{c: make(chan time.Time, 1)}
 		e.flushers++
 		return e.tk
 	}
@@ -119,10 +119,28 @@ func (e *verifExecEnv) alive() bool { return e.tk != nil && !e.tk.stopped }
 // tick: one interval passes; the tick reaches the flusher if one is running.
 func (e *verifExecEnv) tick() {
 	verifClock += verifInterval
-	if e.alive() {
-		e.tk.c <- time.Time{}
-	}
+	e.deliver()
 	verifYield()
+}
+
+// deliver hands a tick to the running flusher's ticker, which like a real
+// ticker buffers one tick and drops further ones.
+func (e *verifExecEnv) deliver() {
+	if e.alive() {
+		select {
+		case e.tk.c <- time.Time{}:
+		default:
+		}
+	}
+}
+
+// started waits (natively: for a bounded time) until a flusher is running.
+func (e *verifExecEnv) started() bool {
+	verifYield()
+	for i := 0; i < 40 && !e.alive(); i++ {
+		verifYield()
+	}
+	return e.alive()
 }
 
 func (e *verifExecEnv) executed() (all bool, dup bool) {
@@ -166,8 +184,8 @@ func Verif_C16_history() {
 			e.count = append(e.count, 0)
 			e.mu.Unlock()
 			e.add(id)
-			verifYield() // the flusher (re)starts and takes over a full batch
-			verifAssert(e.alive(), "a flusher is running after Add")
+			// the flusher (re)starts and takes over a full batch
+			verifAssert(e.started(), "a flusher is running after Add")
 			if retired {
 				verifReach("restarted")
 				retired = false
@@ -240,7 +258,7 @@ func Verif_C16_race() {
 		return id
 	}
 	e.add(newTask())
-	verifYield()
+	verifAssert(e.started(), "a flusher is running after Add")
 	e.tick()
 	e.tick() // whatever was added is flushed by now
 	all, _ := e.executed()
@@ -248,7 +266,7 @@ func Verif_C16_race() {
 	verifAssert(e.alive(), "the flusher is still running")
 	verifClock += (idleRound + 5) * verifInterval // a long idle period
 	verifClock += verifInterval
-	e.tk.c <- time.Time{} // the tick that makes the flusher retire ...
+	e.deliver() // the tick that makes the flusher retire ...
 	for i := 0; i < adds; i++ {
 		e.add(newTask()) // ... races with Add
 	}
@@ -275,7 +293,7 @@ func verifNewExecEnvN(maxTasks int) *verifExecEnv {
 	e.pe = be.executor
 	e.add = func(id int) { be.Add(id) }
 	e.pe.newTicker = func(d time.Duration) timex.Ticker {
-		e.tk = &verifTicker{c: make(chan time.Time)}
+		e.tk = &verifTicker{c: make(chan time.Time, 1)}
 		e.flushers++
 		return e.tk
 	}
@@ -304,10 +322,8 @@ func Verif_C16_two_adders() {
 	go adder(1)
 	if verifChoose("tickDuring", 2) == 1 {
 		verifYield() // a flusher is running by now
-		if e.alive() {
-			verifClock += verifInterval
-			e.tk.c <- time.Time{}
-		}
+		verifClock += verifInterval
+		e.deliver()
 	}
 	wg.Wait()
 	verifYield()
